@@ -1554,6 +1554,9 @@ def OP_CHECK_ADAPTER_SIG(tape: Tape, stack: Stack, cache: dict) -> None:
     m = stack.get()
     R = stack.get()
     sa = stack.get()
+    if len(sa) == 32 and sa[31] & 0b10000000:
+        # bit 255 is ignored by the scalar mult below but not by decryption
+        return stack.put(b'\x00')
     sa_G = nacl.bindings.crypto_scalarmult_ed25519_base_noclamp(sa) # sa_G = G^sa
     RT = aggregate_points((R, T)) # R + T
     ca = clamp_scalar(H_small(RT, X, m)) # H(R + T || X || m)
